@@ -198,7 +198,7 @@ Lemma fold_step1 b m tp : forall L u i,
 Proof.
   induction L as [|A L IH]; intros u i; cbn [fold_left rev find]; [reflexivity|].
   rewrite IH, find_app. destruct (find (fun A0 => cov A0 i) (rev L)); [reflexivity|].
-  cbn [find]. unfold step1. destruct (cov A i); reflexivity.
+  cbn [find]. unfold step1. cbv zeta beta. destruct (cov A i); reflexivity.
 Qed.
 
 Lemma dec1_at b m tpi tp A i : incr tpi -> In A (subareas tpi) -> cov A i = true ->
@@ -288,13 +288,13 @@ Lemma s_one d : d <> 0 -> (qn d / qn d == 1)%Q.
 Proof. intro H. field. apply qn_nonzero; exact H. Qed.
 
 Lemma f1_morph m A ua ub s s' : (s == s')%Q -> (f1 m A ua ub s == f1 m A ua ub s')%Q.
-Proof. intro E. unfold f1, fl, fq. destruct m as [|[ws|]]; rewrite E; reflexivity. Qed.
+Proof. intro E. unfold f1, fl, fq. destruct m as [|[ws|]]; rewrite !Qred_correct, E; reflexivity. Qed.
 
 Lemma f1_at_0 m A ua ub : (f1 m A ua ub 0 == ua)%Q.
-Proof. unfold f1, fl, fq. destruct m as [|[ws|]]; ring. Qed.
+Proof. unfold f1, fl, fq. destruct m as [|[ws|]]; rewrite Qred_correct; ring. Qed.
 
 Lemma f1_at_1 m A ua ub : (f1 m A ua ub 1 == ub)%Q.
-Proof. unfold f1, fl, fq. destruct m as [|[ws|]]; ring. Qed.
+Proof. unfold f1, fl, fq. destruct m as [|[ws|]]; rewrite Qred_correct; ring. Qed.
 
 (* ------------------------------------------------------------------ *)
 (* C16_interp_spec: inside every interpolation subarea, both tie points
@@ -551,7 +551,7 @@ Qed.
 
 Lemma bounds_example :
   map (dec1 true Linear [0; 3; 7] [0#1; 16#1; 32#1]%Q) [0; 3; 4; 7] =
-  [Some [0#4; 16#4]; Some [48#4; 64#4]; Some [64#4; 80#4]; Some [112#4; 128#4]]%Q.
+  [Some [0#1; 4#1]; Some [12#1; 16#1]; Some [16#1; 20#1]; Some [28#1; 32#1]]%Q.
 Proof. vm_compute. reflexivity. Qed.
 
 (* ------------------------------------------------------------------ *)
@@ -651,7 +651,7 @@ Proof.
   induction L as [|A L IH]; intros u i2 i1; cbn [fold_left rev find]; [reflexivity|].
   rewrite IH, find_app.
   destruct (find (fun AA => cov (fst AA) i2 && cov (snd AA) i1) (rev L)); [reflexivity|].
-  cbn [find]. unfold step2. destruct (cov (fst A) i2 && cov (snd A) i1); reflexivity.
+  cbn [find]. unfold step2. cbv zeta beta. destruct (cov (fst A) i2 && cov (snd A) i1); reflexivity.
 Qed.
 
 Lemma dec2_at b tpi2 tpi1 T A2 A1 i2 i1 :
@@ -755,16 +755,16 @@ Proof. eexists; split; [vm_compute; reflexivity|reflexivity]. Qed.
 (* the bi-linear formula also at shared tie points *)
 
 Lemma fl_morph12 x x' y y' s : (x == x')%Q -> (y == y')%Q -> (fl x y s == fl x' y' s)%Q.
-Proof. intros E1 E2. unfold fl. rewrite E1, E2. reflexivity. Qed.
+Proof. intros E1 E2. unfold fl. rewrite !Qred_correct, E1, E2. reflexivity. Qed.
 
 Lemma fl_at_0 x y : (fl x y 0 == x)%Q.
-Proof. unfold fl. ring. Qed.
+Proof. unfold fl. rewrite Qred_correct. ring. Qed.
 
 Lemma fl_at_1 x y : (fl x y 1 == y)%Q.
-Proof. unfold fl. ring. Qed.
+Proof. unfold fl. rewrite Qred_correct. ring. Qed.
 
 Lemma fl_morph3 x y s s' : (s == s')%Q -> (fl x y s == fl x y s')%Q.
-Proof. intro E. unfold fl. rewrite E. reflexivity. Qed.
+Proof. intro E. unfold fl. rewrite !Qred_correct, E. reflexivity. Qed.
 
 (* for an index inside subarea m (tie points included) there is a subarea
    that assigns it, and linear interpolation along any lane of tie points
@@ -821,3 +821,121 @@ Proof.
     + exact (L2 (fun k => tpv2 T k (S (a_k A1)))).
   - exact (L1 P).
 Qed.
+
+(* ------------------------------------------------------------------ *)
+(* the constructor arguments: dictionaries and stored tie points *)
+From Coq Require Import Permutation.
+
+Ltac leb_all :=
+  repeat match goal with
+         | H : (_ <=? _) = true |- _ => apply Nat.leb_le in H
+         | H : (_ <=? _) = false |- _ => apply Nat.leb_gt in H
+         end.
+
+Lemma insert_comm x y : forall l, insert x (insert y l) = insert y (insert x l).
+Proof.
+  induction l as [|a r IH].
+  - cbn. destruct (x <=? y) eqn:E1, (y <=? x) eqn:E2; leb_all; try reflexivity; try lia.
+    assert (x = y) by lia. subst. reflexivity.
+  - cbn [insert].
+    destruct (y <=? a) eqn:Eya, (x <=? a) eqn:Exa; cbn [insert]; rewrite ?Eya, ?Exa.
+    + destruct (x <=? y) eqn:E1, (y <=? x) eqn:E2; leb_all; try reflexivity; try lia.
+      assert (x = y) by lia. subst. reflexivity.
+    + destruct (x <=? y) eqn:E1; leb_all; [lia|reflexivity].
+    + destruct (y <=? x) eqn:E1; leb_all; [lia|reflexivity].
+    + rewrite IH. reflexivity.
+Qed.
+
+Lemma isort_perm l l' : Permutation l l' -> isort l = isort l'.
+Proof.
+  induction 1; cbn [isort].
+  - reflexivity.
+  - rewrite IHPermutation. reflexivity.
+  - apply insert_comm.
+  - congruence.
+Qed.
+
+Section Dict.
+  Context {K V : Type} (eqb : K -> K -> bool).
+  Hypothesis eqb_spec : forall a b, eqb a b = true <-> a = b.
+
+  Lemma glook_perm (k : K) (l l' : list (K * V)) :
+    Permutation l l' -> NoDup (map fst l) -> glook eqb k l = glook eqb k l'.
+  Proof.
+    induction 1 as [|[k1 v1] l l' HP IH|[k1 v1] [k2 v2] l|l l' l'' H1 IH1 H2 IH2]; intro ND.
+    - reflexivity.
+    - cbn. destruct (eqb k k1); [reflexivity|]. apply IH. inversion ND; assumption.
+    - cbn. destruct (eqb k k2) eqn:E2, (eqb k k1) eqn:E1; try reflexivity.
+      apply eqb_spec in E1, E2. subst. cbn in ND. inversion ND as [|? ? HN _]. exfalso. apply HN. left. reflexivity.
+    - rewrite IH1 by exact ND. apply IH2.
+      eapply Permutation_NoDup; [apply Permutation_map; exact H1|exact ND].
+  Qed.
+End Dict.
+
+Lemma string_eqb_spec a b : String.eqb a b = true <-> a = b.
+Proof. apply String.eqb_eq. Qed.
+Lemma nat_eqb_spec a b : Nat.eqb a b = true <-> a = b.
+Proof. apply Nat.eqb_eq. Qed.
+
+(* the reconstituted array does not depend on the insertion order of
+   tie_point_indices, parameters and parameter_dimensions *)
+Lemma dict_order_invariant name bounds shape ty tp tpis tpis' params params' pdims pdims' prec ix :
+  NoDup (map fst tpis) -> Permutation tpis tpis' ->
+  NoDup (map fst params) -> Permutation params params' ->
+  Permutation pdims pdims' ->
+  getitem_sa name bounds shape ty tp tpis params pdims prec ix =
+  getitem_sa name bounds shape ty tp tpis' params' pdims' prec ix.
+Proof.
+  intros ND1 P1 ND2 P2 _.
+  assert (E1 : isort (map fst tpis') = isort (map fst tpis))
+    by (symmetry; apply isort_perm, Permutation_map, P1).
+  assert (E2 : forall k, glook Nat.eqb k tpis' = glook Nat.eqb k tpis)
+    by (intro k; symmetry; apply (glook_perm Nat.eqb nat_eqb_spec); assumption).
+  assert (E3 : meth_of name params' = meth_of name params).
+  { unfold meth_of. destruct name; try reflexivity.
+    rewrite (glook_perm String.eqb string_eqb_spec "w"%string params params' P2 ND2). reflexivity. }
+  assert (E4 : bb_swapped true true tpis' = bb_swapped true true tpis)
+    by (unfold bb_swapped, cdims; rewrite E1; reflexivity).
+  unfold getitem_sa, getitem_sa_gen. rewrite E1, !E2, E3, E4. reflexivity.
+Qed.
+
+Lemma dict_order_example :
+  getitem_sa IBilinear true [4; 8] SF64
+    (TP2 [[NInt 0; NInt 64; NInt 128]; [NInt 1024; NInt 2048; NInt 4096]])
+    [(1, [0; 3; 7]); (0, [0; 3])] [] [] None [IPos [0]; IPos [0]; IPos [0; 1; 2; 3]] =
+  ObsArr [1; 1; 4] [Some (0#1); Some (16#1); Some (332#1); Some (256#1)]%Q.
+Proof. vm_compute. reflexivity. Qed.
+
+(* stored tie points enter only through their values *)
+Lemma inj_eq a b : (inj a == inj b)%Q -> inj a = inj b.
+Proof.
+  unfold inj. intro E. apply Qred_complete. rewrite !Qred_correct in E. exact E.
+Qed.
+
+Definition same_values (l l' : list snum) : Prop := Forall2 (fun a b => (inj a == inj b)%Q) l l'.
+Definition tp_same (t t' : tparr) : Prop :=
+  match t, t' with
+  | TP1 l, TP1 l' => same_values l l'
+  | TP2 T, TP2 T' => Forall2 same_values T T'
+  | _, _ => False
+  end.
+
+Lemma same_values_map l l' : same_values l l' -> map inj l = map inj l'.
+Proof. induction 1; cbn; [reflexivity|]. f_equal; [apply inj_eq; assumption|assumption]. Qed.
+
+Lemma stored_type_irrelevant name bounds shape ty ty' tp tp' tpis params pdims prec ix :
+  tp_same tp tp' ->
+  getitem_sa name bounds shape ty tp tpis params pdims prec ix =
+  getitem_sa name bounds shape ty' tp' tpis params pdims prec ix.
+Proof.
+  intro H. assert (E : tp_inj tp = tp_inj tp').
+  { destruct tp as [l|T], tp' as [l'|T']; cbn in H; try contradiction; cbn [tp_inj]; f_equal.
+    - apply same_values_map; exact H.
+    - induction H; cbn; [reflexivity|]. f_equal; [apply same_values_map; assumption|assumption]. }
+  unfold getitem_sa, getitem_sa_gen. rewrite E. reflexivity.
+Qed.
+
+(* the same numbers stored as int16 and as float32 (6 * 2^-1 = 3, 1 * 2^3 = 8) *)
+Lemma stored_type_example :
+  tp_same (TP1 [NInt 3; NInt 8]) (TP1 [NFlt 6 (-1); NFlt 1 3]).
+Proof. cbn. repeat constructor. Qed.
